@@ -16,7 +16,7 @@ func init() {
 			"(R29.1) short reads: io.Reader.Read is called only inside EnsureRead's loop (everything else reads through EnsureRead, io.ReadFull or io.ReadAll), and EnsureRead reports success only when the whole buffer was filled; " +
 			"(R29.2) a rejection is an error: no return of util/bytes.go hands back an error value that is known to be nil on every path to it; " +
 			"(R29.3) every allocation sized by a length read from the input is preceded by an upper-bound test, every slice expression on input bytes by the matching length test; " +
-			"(R29.4) writer and reader agree: a lengthed item is length ++ bytes on both sides, a lengthed list is count ++ items on both sides, list readers report success only after the loop over all announced items ran to completion and store an item only after it was read; the frame writer and reader exchange the same 2 version bytes.",
+			"(R29.4) writer and reader agree: a lengthed item is length ++ bytes on both sides, a lengthed list is count ++ items on both sides, list readers report success only after the loop over all announced items ran to completion and store an item only after it was read; the frame writer and reader exchange the same 2 version bytes.; a frame body that was read reaches the callback (success without it only if nothing was read or no callback was given); every payload read of a lengthed item asks for no more than what is still missing",
 		NotDecided: "byte equality of the round trip; arbitrary chunking beyond the who-may-Read rule; items longer than the 2 GiB item limit (written, then refused by the reader).",
 		Run:        runC29,
 	})
@@ -195,6 +195,15 @@ func runC29(c *Ctx) {
 		}
 		c.Floor(fn, "lengthed item: returns that carry data", nret, 1)
 	}
+	// a body that was read reaches the consumer: the frame reader answers success without handing the
+	// item to the callback only if nothing was read (the stream had ended) or no callback was given —
+	// a last item that arrives together with io.EOF is still an item
+	if fn := c.Need("util.(*BytesFrameReader).Lengthed"); fn != nil {
+		c.MP(fn, "frame body: success without the callback only if nothing was read", c.SuccessReturns(fn), 1,
+			GCalled("call(read)(*)"), GCmp("util.ReadLengthed(f.r)#0", "<", "1"), GNil("read"))
+		c.ArgIs(fn, "frame body: the callback gets the bytes that were read", c.CallsD(fn, "call(read)(*)"), 1, 0, "util.ReadLengthed(f.r)#1")
+		c.MP(fn, "frame body: read only after the header part was passed", c.CallsTo(fn, "util.ReadLengthed"), 1, GOk("f.exhaustHeader()"))
+	}
 	for _, t := range []struct{ key, countArg, item, loop string }{
 		{"util.WriteLengthedSlice", "util.Uint64ToBytes(len(m))", "util.WriteLengthed(w, m[ι])", "(ι < len(m))"},
 		{"util.(*BytesFrameWriter).Header", "util.Uint64ToBytes(len(bs))", "util.WriteLengthed(f.w, bs[ι])", "(ι < len(bs))"},
@@ -367,6 +376,30 @@ func lengthedAllocRules(c *Ctx, hostile bool) {
 	}
 	c.MP(fn, "lengthed item: buffer allocated only for an announced length within the limit (compared as unsigned)", ms, 1,
 		GCmpU("util.ReadLength(r)#1", "<=", "*"), GCmpU("util.ReadLength(r)#1", "<", "*"))
+	// every read of the payload asks for no more than what is still missing (a chunk sized by the
+	// whole announced length over-reads into the next item of the stream)
+	for _, in := range c.CallsTo(fn, "util.EnsureRead") {
+		buf := stripConv(CallArg(in, 2))
+		if sl, ok := buf.(*ssa.Slice); ok {
+			buf = sl.X
+		}
+		mk, ok := buf.(*ssa.MakeSlice)
+		if !ok {
+			c.Unresolved(fn, "lengthed item: buffer of a payload read", c.D(buf))
+			continue
+		}
+		okSize := c.D(mk.Len) == "util.ReadLength(r)#1"
+		if call, isCall := stripConv(mk.Len).(*ssa.Call); isCall && !okSize {
+			if b, isB := call.Call.Value.(*ssa.Builtin); isB && b.Name() == "min" {
+				for _, a := range call.Call.Args {
+					if bo, isBo := stripConv(a).(*ssa.BinOp); isBo && bo.Op == token.SUB && c.D(bo.X) == "util.ReadLength(r)#1" && strings.HasPrefix(c.D(bo.Y), "len(") {
+						okSize = true
+					}
+				}
+			}
+		}
+		c.Report(fn, "lengthed item: a payload read asks for no more than what is still missing", c.InstrPos(in), okSize, "buffer size "+c.D(mk.Len))
+	}
 	if !hostile {
 		return
 	}
